@@ -636,6 +636,9 @@ func (m *Machine) build(op Op, pid, secret string) *harness.Req {
 		return &harness.Req{Browser: b, Method: "POST", Path: P("/recover"), Form: map[string]string{m.pidField(): pid}}
 	case "recend":
 		return &harness.Req{Browser: b, Method: "POST", Path: P("/recover/end"), Form: map[string]string{"token": secret, "password": op.S, "confirm_password": op.S}}
+	case "recget":
+		// what the mailed link does: open the form
+		return &harness.Req{Browser: b, Method: "GET", Path: P("/recover/end"), Query: url.Values{"token": {secret}}}
 	case "logout":
 		method := op.S
 		if method == "" {
@@ -740,7 +743,7 @@ func (m *Machine) provider(n int) string {
 }
 
 // needsSecret lists op kinds whose Src must resolve.
-var needsSecret = map[string]bool{"login": true, "otplogin": true, "register": true, "confirm": true, "recend": true,
+var needsSecret = map[string]bool{"login": true, "otplogin": true, "register": true, "confirm": true, "recend": true, "recget": true,
 	"o2cb": true, "totpconfirm": true, "totpremove": true, "totpvalidate": true, "smsconfirm": true, "smsremove": true,
 	"smsvalidate": true, "evend": true, "setcookie": true}
 
